@@ -67,11 +67,27 @@ def build_harness(ctx):
     return out
 
 
-def harness(ctx, args, timeout=3000):
+def harness(ctx, args, timeout=None):
     if ctx.harness is None:
         build_harness(ctx)
-    p = subprocess.run([ctx.harness] + [str(a) for a in args], stdout=subprocess.PIPE, stderr=subprocess.PIPE,
+    if timeout is None:
+        # a driver that hangs is a machinery failure (exit 2), and should become one in minutes, not in an hour
+        timeout = 900 if ctx.tier == "quick" else 3000
+    try:
+        p = _run_harness(ctx, args, timeout)
+    except subprocess.TimeoutExpired:
+        raise Machinery("harness %s did not finish within %d s" % (args[0], timeout))
+    if os.environ.get("VERIF_DEBUG_STDERR") and p.returncode != 0:
+        open(os.environ["VERIF_DEBUG_STDERR"], "w").write(p.stderr)
+    return _harness_result(ctx, args, timeout, p)
+
+
+def _run_harness(ctx, args, timeout):
+    return subprocess.run([ctx.harness] + [str(a) for a in args], stdout=subprocess.PIPE, stderr=subprocess.PIPE,
                        timeout=timeout, universal_newlines=True, cwd=ctx.scratch)
+
+
+def _harness_result(ctx, args, timeout, p):
     if p.returncode != 0:
         # Several fixtures share the driver's process. A Go runtime "fatal error" (concurrent map writes on state the
         # code under test shares between its instances) kills all of them at once: run the driver again with one
